@@ -87,12 +87,22 @@ def fmt_correspondence(ctx):
     cs = [(k, w, p, float.fromhex(x) if isinstance(x, str) else x) for k, w, p, x in corpus('fmt')[0]['cases']] if corpus('fmt') else []
     cs += c09fmt.cases(ctx.rng, ctx.n(2000, 40000))
     terms = [c09fmt.eq_term(k, w, p, x, c09fmt.python(k, w, p, x)) for k, w, p, x in cs]
+    nfmt = len(terms)
+    # the readers of the theorems (parse_dec, parse_dec_comma, parse_sci) against Python's own reading of the printed text
+    reads = [(c, c09fmt.parse_term(c[0], c09fmt.python(*c))) for c in cs[::3]]
+    reads = [(c, t) for c, t in reads if t is not None and abs(c[3]) < 1e60]
+    terms += [t for _, t in reads]
+    cs = cs + [('read:' + c[0], c[1], c[2], c[3]) for c, _ in reads]
     bad = c09fmt.kernel_bools(ctx, 'fmt', ['Model.Fmt', 'Model.Float', 'Model.FloatLit'], terms)
     ctx.count('format-vs-cpython', evaluations=len(cs), nontrivial_keys=[(k, w, p, repr(x)) for k, w, p, x in cs],
-              kind={k: sum(1 for c in cs if c[0] == k) for k in ('F', 'Fc', 'E', 'Eu', 'G', 'R', 'RR', 'I')})
+              kind={k: sum(1 for c in cs if c[0] == k) for k in sorted({c[0] for c in cs})})
     ctx.sample('format-vs-cpython', [[k, w, p, repr(x), c09fmt.python(k, w, p, x)] for k, w, p, x in cs[60:63]])
     for i in bad[:5]:
         k, w, p, x = cs[i]
+        if k.startswith('read:'):
+            ctx.violate('corr', f'fmt:{k}:{w}.{p}', f'Model/Fmt.v reads the text {c09fmt.python(k[5:], w, p, x)!r} differently from Python',
+                        inp={'part': 'fmt', 'kind': k, 'w': w, 'p': p, 'x': float(x).hex()})
+            continue
         ctx.violate('corr', f'fmt:{k}:{w}.{p}', f'Model/Fmt.v and CPython disagree on format kind {k} width {w} precision {p} of {x!r}',
                     inp={'part': 'fmt', 'kind': k, 'w': w, 'p': p, 'x': float(x).hex() if k != 'I' else x},
                     observed=c09fmt.python(k, w, p, x), expected='text computed by the Coq model (see replay)')
@@ -621,7 +631,18 @@ def report_correspondence(ctx, spec, inputs, proofs_ok, batch=160):
     return executed, sum(1 for v in ctx.violations[before:] if fw.match_finding(findings, ctx.pid, v.key) is None)
 
 
+def build_shard_libraries(ctx):
+    """Model/FloatLit.v (primitive-integer literals) is deliberately outside the cone of Props/C09.v; the shards need its .vo"""
+    with fw.coq_lock():
+        rc, log = fw.make(['Model/FloatLit.vo', 'Gen/ReportLits.vo'], timeout=600)
+    if rc != 0:
+        ctx.violate('proof', 'build:FloatLit', 'the literal helpers of the correspondence shards do not build: ' + log[-600:])
+    return rc == 0
+
+
 def correspondence(ctx, proofs_ok=True):
+    if not build_shard_libraries(ctx):
+        return
     fmt_correspondence(ctx)
     float_correspondence(ctx)
     spec = rep.load_spec()
@@ -653,6 +674,13 @@ def search(ctx):
 
 def replay(ctx, data):
     inp = data.get('input') or {}
+    build_shard_libraries(ctx)
+    if inp.get('part') == 'fmt' and str(inp.get('kind', '')).startswith('read:'):
+        x = float.fromhex(inp['x'])
+        text = c09fmt.python(inp['kind'][5:], inp['w'], inp['p'], x)
+        bad = c09fmt.kernel_bools(ctx, 'replay', ['Model.Fmt', 'Model.Float', 'Model.FloatLit'], [c09fmt.parse_term(inp['kind'][5:], text)])
+        print('Python reads', repr(text), '-> Coq reader agrees:', not bad)
+        return 1 if bad else 0
     if inp.get('part') == 'fmt':
         x = float.fromhex(inp['x']) if isinstance(inp['x'], str) else inp['x']
         want = c09fmt.python(inp['kind'], inp['w'], inp['p'], x)
